@@ -93,7 +93,7 @@ def run_group(gname, s, tier="quick", seed=0, canary=False):
             return
         pt = fe.paths(("taylor", "mixed"))
         pc = None
-        for rn_ in (0.3, 1e-3, 1.5):
+        for rn_ in (0.3, 1e-3, 1.5, 2.0):
             env = G.sample_tangent(rng, "a", rotnorm=rn_)
             pc = pick_path(fe.paths("closed"), env)
             if pc is not None:
@@ -180,7 +180,7 @@ def run_group(gname, s, tier="quick", seed=0, canary=False):
         # series switch of detail/trig.hpp; 1e-3 is the fallback for functions with the plain eps2 switch only)
         import math
         pc = None
-        for vp_ in (0.15, 0.68, 1e-3):
+        for vp_ in (0.15, 0.68, 0.85, 1e-3):
             e = G.sample_group(rng, "g")
             for grp in G.unit:
                 if len(grp) == 4:
